@@ -353,6 +353,20 @@ pub fn checks(tier: Tier) -> Vec<Check> {
             enumerate: None,
         });
         v.push(Check {
+            // sizes far beyond every threshold in the source (190, 500, 800): a window-size or chunking rule with a
+            // further threshold only shows there (seeded change C11f: w = 9 from 5000 terms on, which the digit
+            // code cannot represent)
+            name: format!("C04.msm-huge[{}]", label),
+            strategy: prop_oneof![msm_fixed(2048, 1), msm_fixed(5000, 1), msm_fixed(5000, 2), msm_fixed(10000, 4), msm_fixed(4097, 0)].boxed(),
+            cases: tier.scale(5, 3),
+            exec: forced_exec(kind),
+            oracle: Box::new(crate::mops::oracle),
+            classify: Box::new(|_: &Req, _: &Resp| vec!["multiscalar-n>=2048"]),
+            rule: RULE,
+            exhaustive: false,
+            enumerate: None,
+        });
+        v.push(Check {
             name: format!("C04.msm-large[{}]", label),
             strategy: msm_strategy(vec![189, 190, 191, 499, 500, 501, 799, 800, 801, 1000], true),
             cases: tier.scale(96, 10),
